@@ -1046,7 +1046,7 @@ def dsk4(ctx, c):
     from ..consteval import fold as _flt, NotConst as _Nlt
     lt_verdict = None
     for t_ in tests:
-        names_ = sorted({x.id for x in ast.walk(t_) if isinstance(x, ast.Name)})
+        names_ = sorted({x.id for x in ast.walk(t_) if isinstance(x, ast.Name) and x.id not in ctx.env})
         if len(names_) != 1:
             continue
         try:
@@ -1055,6 +1055,9 @@ def dsk4(ctx, c):
             continue
         if not tb[0x00] and not tb[0x21] and tb[0xC1] and tb[0xC9]:
             lt_verdict = (U(t_), tb)
+        elif tb[0x00] and tb[0x21] and not tb[0xC1] and not tb[0xC9]:
+            # the same test written the other way round (`!=` with the branches swapped): judged on its negation
+            lt_verdict = ("not (%s)" % U(t_), {k_: not v_ for k_, v_ in tb.items()})
     links_as_last = [v_ for v_ in range(D.GRANULES) if lt_verdict is not None and lt_verdict[1][v_]]
     if links_as_last:
         c.finding("calculate_file_length:last-test", "`%s` holds for the link to granule %d" % (lt_verdict[0], links_as_last[0]),
